@@ -77,7 +77,17 @@ class World:
                 k = r.choice([1, 1, 2, 3, 5, 7])
                 mx = r.choice([1, 2, 3, 5, 10, 16, 100])
                 circs = [[r.randint(0, 1) for _ in range(n)] for _ in range(k)]
-                a = {"circs": circs, "shots": [shots_for(mx) for _ in range(k)], "max": mx if op == "expand" else r.choice([1, 2, 3, 4, 10, 0, -1]),
+                prev_req = [x["args"] for x in steps if x["op"] == op]
+                if prev_req and r.random() < 0.3:
+                    # the same request once more (other circuits, same numbers): nothing an earlier call returned - and
+                    # the client has meanwhile used up - may leak into this answer
+                    p0 = r.choice(prev_req)
+                    k, mx_shots = len(p0["shots"]), list(p0["shots"])
+                    circs = [[r.randint(0, 1) for _ in range(n)] for _ in range(k)]
+                else:
+                    mx_shots = None
+                a = {"circs": circs, "shots": mx_shots or [shots_for(mx) for _ in range(k)],
+                     "max": (p0["max"] if mx_shots else (mx if op == "expand" else r.choice([1, 2, 3, 4, 10, 0, -1]))),
                      "foreign": [r.randint(0, 3) for _ in range(k)] if r.random() < 0.25 else None,
                      "via": r.choice(["counts", "bitstrings"]), "batchrun": r.random() < 0.5, "memo": r.random() < 0.35}
                 s = {"op": op, "args": a}
@@ -120,6 +130,13 @@ class World:
                     ws[0] = 1.0
                 s = {"op": "represent", "args": {"keys": keys, "weights": ws, "N": n_over or r.choice([1, 2, 3, 5, 10, 33, 100, 257]),
                                                  "keystyle": r.choice(["tuple", "str"]), "f32": r.random() < 0.12}}
+                if r.random() < 0.12:
+                    # subsystems with more than two levels (outcome values up to 12): tuple keys only
+                    lv = set()
+                    while len(lv) < len(keys):
+                        lv.add(tuple(r.choice([0, 1, 2, 3, 9, 10, 12]) for _ in range(max(1, n))))
+                    s["args"]["mkeys"] = [list(k_) for k_ in sorted(lv)]
+                    s["args"]["keystyle"] = "tuple"
             else:
                 m = r.randint(1, 8)
                 ws = [r.choice([1, 2, 3, 0.5, 1.5, 1 / 3, r.uniform(0.01, 10)]) for _ in range(m)]
@@ -195,6 +212,12 @@ class World:
                     ctx.probe("expand-exact-multiple")
             if mx == 1:
                 ctx.probe("expand-max-1")
+        # the client works through what it was given as a queue (pops entries off the returned containers)
+        for part in (res[1], res[2]) if ok and isinstance(res, tuple) and len(res) == 3 else ():
+            if isinstance(part, list) and part:
+                part.pop()
+                part.reverse()
+                ctx.probe("expand-result-consumed")
         # run the copies through the peer
         f = step.get("fault")
         be.arm(step["rs"], f["at"] if f else None)
@@ -324,6 +347,9 @@ class World:
 
         n = ctx.config["n"]
         keys = [tuple((k >> (n - 1 - q)) & 1 for q in range(n)) for k in a["keys"]]
+        if a.get("mkeys"):
+            keys = [tuple(k) for k in a["mkeys"]][: len(a["weights"])]
+            ctx.probe("represent-multi-level-outcomes")
         src = {(k if a["keystyle"] == "tuple" else "".join(map(str, k))): (np.float32(w) if a.get("f32") else w) for k, w in zip(keys, a["weights"])}
         ok, dist = call(MeasurementOutcomeDistribution, dict(src))
         if not ok:
